@@ -6,14 +6,14 @@ EXPLANATION = ('CrossHair executes the real BaseTimeParser.match_to_time (Englis
                'match object is a stub carrying symbolic-digit group texts; z3 decides every path.')
 ASSUMPTIONS = ['regex match objects are replaced by a stub that exposes named groups (hour/min/sec as digit strings, desc as text); '
                'which surface strings the English TimeRegex patterns accept is not decided here',
-               'am/pm spellings checked: am, pm, a.m., p.m., a, p']
+               'am/pm spellings checked: am, pm, a.m., p.m. (thorough: also a m, p m, a.m, p.m, a. m., p . m .); the bare English suffix "p" ("3:30p") is not an am/pm spelling of the property and is not claimed']
 OUTSIDE = ['which match the engine prefers inside longer text (the language layer O7.1 shows a full match exists)', 'written-out times ("half past three"), time zones']
 U = 'recognizers_date_time.date_time.utilities:DateTimeFormatUtil.'
 
 
 def obligations(tier):
     t = 120 if tier == 'quick' else 600
-    descs = ['', 'am', 'pm', 'a.m.', 'p.m.'] + (['a', 'p'] if tier == 'thorough' else [])
+    descs = ['', 'am', 'pm', 'a.m.', 'p.m.'] + (['a m', 'p m', 'a.m', 'p.m', 'a. m.', 'p . m .'] if tier == 'thorough' else [])
     sl = []
     for d in descs:
         for hw in (1, 2):
